@@ -171,15 +171,29 @@ class Checker:
         self.digests.add(digest(b"".join(order)))
         path = os.path.join(os.getcwd(), "store-%d.db" % idx)
         store = quiet(BlockStore, path)
-        w = {"blocks": gen.blocks_hex(world, order), "flush_after": []}
+        # the hand-over sequence: every block once, in arrival order; in some trees blocks that were handed over before
+        # (flushed already, or still buffered -- possibly with children handed over since) are handed over AGAIN
+        seq = []
+        rehand = rng.random() < 0.4
+        for k in range(len(order)):
+            if rehand and k and rng.random() < 0.25:
+                seq.append(rng.randrange(k))
+            seq.append(k)
+        if rehand and rng.random() < 0.5:
+            seq.append(rng.randrange(len(order)))
+        w = {"blocks": gen.blocks_hex(world, order), "handed": seq, "flush_after": []}
         written = []
         pending = []
         batch_mode = rng.choice(["each", "random", "random", "all"])
-        for k, bid in enumerate(order):
+        for k, oi in enumerate(seq):
+            bid = order[oi]
             store.add_block_to_buffer(world.real[bid])
-            pending.append(bid)
+            if bid in written or bid in pending:
+                c["blocks_handed_over_again"] = c.get("blocks_handed_over_again", 0) + 1
+            else:
+                pending.append(bid)
             c["blocks_written"] += 1
-            last = k == len(order) - 1
+            last = k == len(seq) - 1
             do_flush = last or batch_mode == "each" or (batch_mode == "random" and rng.random() < 0.4)
             if do_flush:
                 c["flushes"] += 1
@@ -357,10 +371,13 @@ def replay(chk, w):
     path = os.path.join(os.getcwd(), "replay.db")
     store = quiet(BlockStore, path)
     written, pending = [], []
-    for k, bid in enumerate(order):
+    seq = w.get("handed", list(range(len(order))))
+    for k, oi in enumerate(seq):
+        bid = order[oi]
         store.add_block_to_buffer(world.real[bid])
-        pending.append(bid)
-        if k in w.get("flush_after", []) or k == len(order) - 1:
+        if bid not in written and bid not in pending:
+            pending.append(bid)
+        if k in w.get("flush_after", []) or k == len(seq) - 1:
             try:
                 store.flush_blocks_to_disk()
             except Exception as e:
@@ -397,7 +414,8 @@ def finalize(m, tier):
     c = m["counters"]
     return {
         "rule": "random block trees with multi-input/multi-output transactions, pending transactions re-mined on sibling "
-                "forks, reorganisations; random batching of writes into flushes (each / random / all); file-backed store "
+                "forks, reorganisations; random batching of writes into flushes (each / random / all), in 40% of the trees with blocks "
+                "handed over again later (before or after their first flush, with children handed over since); file-backed store "
                 "reloaded by a fresh BlockStore after flushes; distinct = distinct trees + distinct flushed prefixes by "
                 "digest; non-trivial = reloads of stores holding at least one non-genesis block (all of them)",
         "floors": [("reloads", c.get("reloads", 0), 150), ("state_rebuilds", c.get("state_rebuilds", 0), 150),
@@ -406,6 +424,7 @@ def finalize(m, tier):
                    ("multi_input_transactions", c.get("multi_input_transactions", 0), 100),
                    ("same_transaction_in_two_blocks", c.get("same_transaction_in_two_blocks", 0), 20),
                    ("thread_lane_flushes_with_data", c.get("thread_lane_flushes_with_data", 0), 40),
-                   ("large_store_blocks", c.get("large_store_blocks", 0), 5000)],
+                   ("large_store_blocks", c.get("large_store_blocks", 0), 5000),
+                   ("blocks_handed_over_again", c.get("blocks_handed_over_again", 0), 50)],
         "extra": {},
     }
